@@ -5,7 +5,12 @@
 //!  chain --dir D --out F --diffout F --seed S --len N [--sync 1]
 //!                                     direction B: real-PoW AutomatedTesting chain, every single-field
 //!                                     header mutation through process_block_header / sync_block_headers /
-//!                                     process_block (Options::NONE) and UntrustedBlockHeader::read
+//!                                     process_block and UntrustedBlockHeader::read.  Every call is made
+//!                                     with the option sets the node really uses (servers/src): NONE for
+//!                                     broadcast headers/blocks, SYNC for header sync and for blocks fetched
+//!                                     by body sync (also out of order: orphan pool, re-processed with the
+//!                                     options stored with the orphan), MINE for self-mined blocks; plus
+//!                                     SKIP_POW combinations (test chains only).
 use chrono::{DateTime, Duration, Utc};
 use grin_chain as chain;
 use grin_core as core;
@@ -279,6 +284,29 @@ fn mine(h: &mut BlockHeader, eb: u8, tries: u64, pred: &dyn Fn(&BlockHeader) -> 
 	false
 }
 
+/// Break the cycle of a properly mined header (proof nonces only; the reviewer's recipe): the result
+/// is not a valid proof but the hash of its nonces still reaches `target`.
+fn forge(h: &mut BlockHeader, target: u64) -> bool {
+	let mask = (1u64 << h.pow.proof.edge_bits) - 1;
+	let n = h.pow.proof.nonces.len();
+	for k in (0..n).rev() {
+		// (from 2: +-1 on the last nonce is the `proof_tampered` mutation)
+		for delta in 2..400u64 {
+			let mut x = h.clone();
+			x.pow.proof.nonces[k] = (x.pow.proof.nonces[k] + delta) & mask;
+			if x.hash() == h.hash() || pow::verify_size(&x).is_ok() {
+				continue;
+			}
+			if x.pow.to_difficulty(x.height).to_num() < target {
+				continue;
+			}
+			*h = x;
+			return true;
+		}
+	}
+	false
+}
+
 fn class<T, E: std::fmt::Debug>(r: std::thread::Result<Result<T, E>>) -> (String, String) {
 	match r {
 		Ok(Ok(_)) => ("accept".into(), "".into()),
@@ -291,6 +319,55 @@ fn class<T, E: std::fmt::Debug>(r: std::thread::Result<Result<T, E>>) -> (String
 	}
 }
 
+/// The options one call is made with.
+#[derive(Clone, Copy, PartialEq)]
+struct O {
+	skip: bool,
+	sync: bool,
+	mine: bool,
+}
+const NONE: O = O { skip: false, sync: false, mine: false };
+const SYNC: O = O { skip: false, sync: true, mine: false };
+const MINE: O = O { skip: false, sync: false, mine: true };
+const SKIP: O = O { skip: true, sync: false, mine: false };
+const SYNC_SKIP: O = O { skip: true, sync: true, mine: false };
+impl O {
+	fn bits(&self) -> Options {
+		let mut o = Options::NONE;
+		if self.skip {
+			o |= Options::SKIP_POW;
+		}
+		if self.sync {
+			o |= Options::SYNC;
+		}
+		if self.mine {
+			o |= Options::MINE;
+		}
+		o
+	}
+	fn names(&self) -> Vec<&'static str> {
+		let mut v = vec![];
+		if self.skip {
+			v.push("SKIP_POW");
+		}
+		if self.sync {
+			v.push("SYNC");
+		}
+		if self.mine {
+			v.push("MINE");
+		}
+		v
+	}
+	fn tag(&self) -> String {
+		let n = self.names();
+		if n.is_empty() {
+			"NONE".to_string()
+		} else {
+			n.join("+")
+		}
+	}
+}
+
 struct Node {
 	chain: Chain,
 	reg: Reg,
@@ -298,9 +375,27 @@ struct Node {
 	delivered: u64,
 	accepted: u64,
 	by_mut: HashMap<String, (u64, u64)>,
+	/// "<entry point>:<options>" -> (accepted, rejected, orphaned)
+	by_opts: HashMap<String, (u64, u64, u64)>,
+	/// "<entry point>:<options>" -> deliveries of a header whose ONLY defect is its cycle
+	/// (proof invalid, hash of the proof reaches the claimed difficulty), without SKIP_POW
+	forged_by_path: HashMap<String, u64>,
 }
 
 impl Node {
+	fn new(chain: Chain, out: NdWriter) -> Node {
+		Node {
+			chain,
+			reg: Reg { ids: HashMap::new() },
+			out,
+			delivered: 0,
+			accepted: 0,
+			by_mut: HashMap::new(),
+			by_opts: HashMap::new(),
+			forged_by_path: HashMap::new(),
+		}
+	}
+
 	fn note(&mut self, m: &str, verdict: &str) {
 		self.delivered += 1;
 		let e = self.by_mut.entry(m.to_string()).or_insert((0, 0));
@@ -312,25 +407,56 @@ impl Node {
 		}
 	}
 
-	fn deliver_header(&mut self, h: &BlockHeader, rec: &Value, m: &str, skip: bool) {
-		let opts = if skip { Options::SKIP_POW } else { Options::NONE };
-		let (v, e) = class(catch_unwind(AssertUnwindSafe(|| self.chain.process_block_header(h, opts))));
-		self.note(m, &v);
-		self.out.put(&json!({"k": "Header", "skip": skip, "mut": m, "h": rec, "verdict": v, "err": e}));
+	fn note_path(&mut self, k: &str, o: O, m: &str, verdict: &str) {
+		let key = format!("{}:{}", k, o.tag());
+		let e = self.by_opts.entry(key.clone()).or_insert((0, 0, 0));
+		match verdict {
+			"accept" => e.0 += 1,
+			"orphan" => e.2 += 1,
+			_ => e.1 += 1,
+		}
+		if m == "proof_forged" && !o.skip {
+			*self.forged_by_path.entry(key).or_insert(0) += 1;
+		}
 	}
 
-	fn deliver_sync(&mut self, hs: &[BlockHeader], recs: &[Value], m: &str, skip: bool) {
-		let opts = if skip { Options::SKIP_POW } else { Options::NONE };
+	fn stored(&self, h: &BlockHeader) -> bool {
+		self.chain.get_block_header(&h.hash()).is_ok()
+	}
+
+	fn deliver_header(&mut self, h: &BlockHeader, rec: &Value, m: &str, o: O) {
+		let opts = o.bits();
+		let (v, e) = class(catch_unwind(AssertUnwindSafe(|| self.chain.process_block_header(h, opts))));
+		self.note(m, &v);
+		self.note_path("Header", o, m, &v);
+		let st = self.stored(h);
+		self.out.put(&json!({"k": "Header", "skip": o.skip, "opts": o.names(), "mut": m, "h": rec, "verdict": v, "stored": st, "err": e}));
+	}
+
+	fn deliver_sync(&mut self, hs: &[BlockHeader], recs: &[Value], m: &str, o: O) {
+		let opts = o.bits();
 		let sync_head: Tip = self.chain.header_head().unwrap();
 		let (v, e) = class(catch_unwind(AssertUnwindSafe(|| self.chain.sync_block_headers(hs, sync_head, opts))));
 		self.note(m, &v);
-		self.out.put(&json!({"k": "Sync", "skip": skip, "mut": m, "hs": recs, "verdict": v, "err": e}));
+		self.note_path("Sync", o, m, &v);
+		let st: Vec<bool> = hs.iter().map(|h| self.stored(h)).collect();
+		self.out.put(&json!({"k": "Sync", "skip": o.skip, "opts": o.names(), "mut": m, "hs": recs, "verdict": v, "stored": st, "err": e}));
 	}
 
-	fn deliver_block(&mut self, b: &Block, rec: &Value, m: &str) {
-		let (v, e) = class(catch_unwind(AssertUnwindSafe(|| self.chain.process_block(b.clone(), Options::NONE))));
+	/// Returns the verdict class: accept / reject / orphan (parked until the parent's body arrives) / panic.
+	fn deliver_block(&mut self, b: &Block, rec: &Value, m: &str, o: O) -> String {
+		let opts = o.bits();
+		let r = catch_unwind(AssertUnwindSafe(|| self.chain.process_block(b.clone(), opts)));
+		let orphan = matches!(r, Ok(Err(chain::Error::Orphan)));
+		let (mut v, e) = class(r);
+		if orphan {
+			v = "orphan".into();
+		}
 		self.note(m, &v);
-		self.out.put(&json!({"k": "Block", "skip": false, "mut": m, "h": rec, "verdict": v, "err": e}));
+		self.note_path("Block", o, m, &v);
+		let st = self.stored(&b.header);
+		self.out.put(&json!({"k": "Block", "skip": o.skip, "opts": o.names(), "mut": m, "h": rec, "verdict": v, "stored": st, "err": e}));
+		v
 	}
 
 	fn deliver_read(&mut self, h: &BlockHeader, rec: &Value, m: &str) {
@@ -374,14 +500,7 @@ fn chain_scenario(a: &Args) {
 	gen.header.kernel_mmr_size = 1;
 
 	let chain = init_chain(&format!("{}/a", dir), &gen);
-	let mut node = Node {
-		chain,
-		reg: Reg { ids: HashMap::new() },
-		out: NdWriter::create(a.req("out")),
-		delivered: 0,
-		accepted: 0,
-		by_mut: HashMap::new(),
-	};
+	let mut node = Node::new(chain, NdWriter::create(a.req("out")));
 	let mut dout = NdWriter::create(a.req("diffout"));
 	let grec = hrec(&mut node.reg, &gen.header, true, true);
 	node.out.put(&json!({"k": "Reset", "ct": "AutomatedTesting", "genesis": grec}));
@@ -396,6 +515,9 @@ fn chain_scenario(a: &Args) {
 	let mut max_target = 0u64;
 	let mut exact_found = 0u64;
 	let mut low_found = 0u64;
+	let mut forged_found = 0u64;
+	// the mutated blocks of every height, kept for the body sync of the second node
+	let mut saved: Vec<Vec<(&'static str, Block, bool, bool)>> = vec![vec![]];
 
 	for height in 1..=len {
 		let prev = honest.last().unwrap().header.clone();
@@ -417,19 +539,25 @@ fn chain_scenario(a: &Args) {
 		let ok = mine(&mut b.header, eb0, 1_000_000, &|h| h.pow.to_difficulty(h.height).to_num() >= target);
 		assert!(ok, "mining honest block");
 
-		// honest delivery, rotating over the entry points
+		// honest delivery, rotating over the entry points and over the options the node uses:
+		// a block it mined itself (MINE), a broadcast header / block (NONE), header sync and
+		// a block fetched by body sync (SYNC)
 		let rec = hrec(&mut node.reg, &b.header, true, true);
+		let bo = rng.pick(&[NONE, SYNC, MINE]);
+		let so = rng.pick(&[SYNC, SYNC, NONE]);
 		match height % 3 {
-			0 => node.deliver_block(&b, &rec, "honest"),
+			0 => {
+				node.deliver_block(&b, &rec, "honest", bo);
+			}
 			1 => {
 				node.deliver_read(&b.header, &rec, "honest");
-				node.deliver_header(&b.header, &rec, "honest", false);
-				node.deliver_block(&b, &rec, "honest");
+				node.deliver_header(&b.header, &rec, "honest", NONE);
+				node.deliver_block(&b, &rec, "honest", bo);
 			}
 			_ => {
-				node.deliver_sync(&[b.header.clone()], &[rec.clone()], "honest", false);
-				node.deliver_header(&b.header, &rec, "honest", false);
-				node.deliver_block(&b, &rec, "honest");
+				node.deliver_sync(&[b.header.clone()], &[rec.clone()], "honest", so);
+				node.deliver_header(&b.header, &rec, "honest", NONE);
+				node.deliver_block(&b, &rec, "honest", bo);
 			}
 		}
 		if node.chain.head().unwrap().last_block_h != b.hash() {
@@ -445,8 +573,9 @@ fn chain_scenario(a: &Args) {
 		let ftl = global::get_future_time_limit() as i64;
 		let pc_out = prev.output_mmr_count();
 		let pc_kern = prev.kernel_mmr_count();
-		// (name, header, root_ok, body_ok, remine: 0 none / 1 reach own target / 2 below / 3 exact, edge bits)
-		let mut muts: Vec<(&str, BlockHeader, bool, bool, u8, u8)> = vec![];
+		// (name, header, root_ok, body_ok, remine: 0 none / 1 reach own target / 2 below / 3 exact /
+		//  4 forge: break the cycle, keep the hash of the proof at or above the target, edge bits)
+		let mut muts: Vec<(&'static str, BlockHeader, bool, bool, u8, u8)> = vec![];
 		let mut add = |n: &'static str, f: &dyn Fn(&mut BlockHeader), root_ok: bool, body_ok: bool, re: u8, eb: u8| {
 			let mut h = hh.clone();
 			f(&mut h);
@@ -475,6 +604,7 @@ fn chain_scenario(a: &Args) {
 		add("scaling_minus1", &|h| h.pow.secondary_scaling = if h.pow.secondary_scaling == 0 { 7 } else { h.pow.secondary_scaling - 1 }, true, true, 1, eb0);
 		add("nonce_stale", &|h| h.pow.nonce = h.pow.nonce.wrapping_add(1), true, true, 0, eb0);
 		add("proof_tampered", &|h| { let k = h.pow.proof.nonces.len() - 1; h.pow.proof.nonces[k] ^= 1; }, true, true, 0, eb0);
+		add("proof_forged", &|_| {}, true, true, 4, eb0);
 		add("edge_bits_below", &|_| {}, true, true, 1, eb0 - 1);
 		add("edge_bits_up", &|_| {}, true, true, 1, eb0 + 1);
 		add("edge_bits_29", &|h| h.pow.proof.edge_bits = 29, true, true, 0, 29);
@@ -496,6 +626,7 @@ fn chain_scenario(a: &Args) {
 		add("global_weight", &|h| h.output_mmr_size = mmr_size_for(12 * (h.height + 1) + 1), true, false, 1, eb0);
 		drop(add);
 
+		let mut saved_here: Vec<(&'static str, Block, bool, bool)> = vec![];
 		for (name, mut h, root_ok, body_ok, re, eb) in muts {
 			let own_target = h.pow.total_difficulty.to_num().wrapping_sub(prev.pow.total_difficulty.to_num());
 			let mined = match re {
@@ -511,7 +642,8 @@ fn chain_scenario(a: &Args) {
 					}
 				}
 				2 => mine(&mut h, eb, 200_000, &|x| x.pow.to_difficulty(x.height).to_num() < target),
-				_ => mine(&mut h, eb, 6_000, &|x| x.pow.to_difficulty(x.height).to_num() == target),
+				3 => mine(&mut h, eb, 6_000, &|x| x.pow.to_difficulty(x.height).to_num() == target),
+				_ => forge(&mut h, target),
 			};
 			if !mined {
 				continue;
@@ -522,6 +654,9 @@ fn chain_scenario(a: &Args) {
 			if name == "pow_low" {
 				low_found += 1;
 			}
+			if name == "proof_forged" {
+				forged_found += 1;
+			}
 			if h == hh {
 				continue;
 			}
@@ -531,73 +666,163 @@ fn chain_scenario(a: &Args) {
 			let rec = hrec(&mut node.reg, &h, root_ok, body_ok);
 			node.deliver_read(&h, &rec, name);
 			let mb = Block { header: h.clone(), body: b.body.clone() };
-			if rng.below(2) == 0 {
-				node.deliver_header(&h, &rec, name, false);
-				node.deliver_sync(&[h.clone()], &[rec.clone()], name, false);
-			} else {
-				node.deliver_sync(&[h.clone()], &[rec.clone()], name, false);
-				node.deliver_header(&h, &rec, name, false);
+			// every entry point with every option set the node uses, in a random order (a header the
+			// property allows is validated from scratch by the first call only; a refused one by all)
+			// 0/1: process_block_header NONE/SYNC-or-MINE  2/3/4: sync_block_headers NONE/SYNC/MINE
+			// 5/6/7: process_block NONE/SYNC/MINE
+			let mut plan: Vec<u8> = vec![0, 2, 3, 5, 6, 7];
+			plan.push(rng.pick(&[1u8, 4]));
+			for i in (1..plan.len()).rev() {
+				let j = rng.below(i as u64 + 1) as usize;
+				plan.swap(i, j);
+			}
+			let ho = rng.pick(&[SYNC, MINE]);
+			let mut block_done = same_hash;
+			for step in plan {
+				match step {
+					0 => node.deliver_header(&h, &rec, name, NONE),
+					1 => node.deliver_header(&h, &rec, name, ho),
+					2 => node.deliver_sync(&[h.clone()], &[rec.clone()], name, NONE),
+					3 => node.deliver_sync(&[h.clone()], &[rec.clone()], name, SYNC),
+					4 => node.deliver_sync(&[h.clone()], &[rec.clone()], name, MINE),
+					_ => {
+						// (a block the node took is not delivered again: that is "duplicate block")
+						if !block_done {
+							let o = [NONE, SYNC, MINE][(step - 5) as usize];
+							if node.deliver_block(&mb, &rec, name, o) == "accept" {
+								block_done = true;
+							}
+						}
+					}
+				}
+			}
+			// SKIP_POW skips exactly the PoW clauses, with or without SYNC (only for headers that cannot
+			// out-work the honest one)
+			if ["nonce_stale", "proof_tampered", "proof_forged", "scaling_plus1", "edge_bits_below", "ts_equal", "version_plus"].contains(&name) {
+				if rng.below(2) == 0 {
+					node.deliver_header(&h, &rec, name, SKIP);
+				} else {
+					node.deliver_header(&h, &rec, name, SYNC_SKIP);
+				}
+				if !same_hash {
+					node.deliver_sync(&[h.clone()], &[rec.clone()], name, SYNC_SKIP);
+				}
 			}
 			if !same_hash {
-				node.deliver_block(&mb, &rec, name);
-			}
-			// SKIP_POW skips exactly the PoW clauses (only for headers that cannot out-work the honest one)
-			if ["nonce_stale", "proof_tampered", "scaling_plus1", "edge_bits_below", "ts_equal", "version_plus"].contains(&name) {
-				node.deliver_header(&h, &rec, name, true);
+				saved_here.push((name, mb, root_ok, body_ok));
 			}
 		}
+		saved.push(saved_here);
 
 		win.insert(0, (b.header.timestamp.timestamp() as u64, target, b.header.pow.secondary_scaling, b.header.pow.is_secondary()));
 		honest.push(b);
 	}
 
-	// ---- header sync on a second node: chunks of honest headers, each first tried with one
-	//      header of the chunk replaced by a (re-mined) mutation ----
+	// ---- a second node that syncs the way the node does: header sync (chunks of honest headers
+	//      with Options::SYNC, each first tried with one header of the chunk replaced by a
+	//      mutation), then body sync (blocks with Options::SYNC, partly out of order, so that
+	//      blocks wait in the orphan pool and are processed later with the options kept there;
+	//      mutated blocks of the same heights in between) ----
 	let mut sync_chunks = 0u64;
+	let mut body_synced = 0u64;
+	let mut body_head_ok = true;
 	if do_sync && honest.len() > 3 {
 		let chain_b = init_chain(&format!("{}/b", dir), &gen);
-		let mut nb = Node { chain: chain_b, reg: Reg { ids: HashMap::new() }, out: node.out, delivered: node.delivered, accepted: node.accepted, by_mut: node.by_mut };
+		let mut nb = Node::new(chain_b, node.out);
+		nb.delivered = node.delivered;
+		nb.accepted = node.accepted;
+		nb.by_mut = node.by_mut;
+		nb.by_opts = node.by_opts;
+		nb.forged_by_path = node.forged_by_path;
 		let grec = hrec(&mut nb.reg, &gen.header, true, true);
 		nb.out.put(&json!({"k": "Reset", "ct": "AutomatedTesting", "genesis": grec}));
 		let mut i = 1usize;
 		while i < honest.len() {
 			let n = (1 + rng.below(4) as usize).min(honest.len() - i);
 			let hs: Vec<BlockHeader> = honest[i..i + n].iter().map(|b| b.header.clone()).collect();
+			let so = if rng.below(4) == 0 { NONE } else { SYNC };
 			// corrupted version of the chunk first
 			let pos = rng.below(n as u64) as usize;
-			let kind = rng.below(7);
+			let kind = rng.below(10);
 			let mut bad = hs.clone();
 			let parent = honest[i + pos - 1].header.clone();
-			let (mname, root_ok) = {
+			let ptotal = parent.pow.total_difficulty.to_num();
+			let (mname, root_ok, remine) = {
 				let h = &mut bad[pos];
 				match kind {
-					0 => { h.timestamp = parent.timestamp; ("ts_equal", true) }
-					1 => { h.pow.total_difficulty = Difficulty::from_num(h.pow.total_difficulty.to_num() + 1); ("total_plus1", true) }
-					2 => { h.pow.secondary_scaling += 1; ("scaling_plus1", true) }
-					3 => { let mut v = h.prev_root.to_vec(); v[0] ^= 1; h.prev_root = Hash::from_vec(&v); ("prev_root_bad", false) }
-					4 => { h.version = HeaderVersion(h.version.0 + 1); ("version_plus", true) }
-					5 => { h.height += 1; ("height_plus", true) }
-					_ => { h.timestamp = h.timestamp + Duration::seconds(1); ("ts_plus1", true) }
+					0 => { h.timestamp = parent.timestamp; ("ts_equal", true, true) }
+					1 => { h.pow.total_difficulty = Difficulty::from_num(h.pow.total_difficulty.to_num() + 1); ("total_plus1", true, true) }
+					2 => { h.pow.secondary_scaling += 1; ("scaling_plus1", true, true) }
+					3 => { let mut v = h.prev_root.to_vec(); v[0] ^= 1; h.prev_root = Hash::from_vec(&v); ("prev_root_bad", false, true) }
+					4 => { h.version = HeaderVersion(h.version.0 + 1); ("version_plus", true, true) }
+					5 => { h.height += 1; ("height_plus", true, true) }
+					6 => { h.timestamp = h.timestamp + Duration::seconds(1); ("ts_plus1", true, true) }
+					7 => { h.pow.nonce = h.pow.nonce.wrapping_add(1); ("nonce_stale", true, false) }
+					_ => {
+						let t = h.pow.total_difficulty.to_num() - ptotal;
+						if forge(h, t) { ("proof_forged", true, false) } else { let k = h.pow.proof.nonces.len() - 1; h.pow.proof.nonces[k] ^= 1; ("proof_tampered", true, false) }
+					}
 				}
 			};
-			{
+			if remine {
 				let h = &mut bad[pos];
-				let t = h.pow.total_difficulty.to_num() - parent.pow.total_difficulty.to_num();
+				let t = h.pow.total_difficulty.to_num() - ptotal;
 				mine(h, eb0, 1_000_000, &|x| x.pow.to_difficulty(x.height).to_num() >= t);
 			}
 			let recs: Vec<Value> = bad.iter().enumerate().map(|(j, h)| hrec(&mut nb.reg, h, if j == pos { root_ok } else { true }, true)).collect();
-			nb.deliver_sync(&bad, &recs, mname, false);
+			nb.deliver_sync(&bad, &recs, mname, so);
 			// then the honest chunk
 			let recs: Vec<Value> = hs.iter().map(|h| hrec(&mut nb.reg, h, true, true)).collect();
-			nb.deliver_sync(&hs, &recs, "honest", false);
+			nb.deliver_sync(&hs, &recs, "honest", so);
 			sync_chunks += 1;
 			i += n;
 		}
+
+		// body sync
+		let top = honest.len() - 1;
+		let mut lo = 1usize;
+		while lo <= top {
+			let n = (1 + rng.below(3) as usize).min(top - lo + 1);
+			// the group's blocks arrive highest first: all but the lowest wait as orphans
+			for hgt in (lo..lo + n).rev() {
+				// some mutated blocks of this height first (their parent's body may still be missing)
+				let cands = &saved[hgt];
+				let mut must: Vec<usize> = cands.iter().enumerate().filter(|(_, c)| c.0 == "proof_forged" || c.0 == "proof_tampered").map(|(k, _)| k).collect();
+				for _ in 0..4 {
+					if !cands.is_empty() {
+						must.push(rng.below(cands.len() as u64) as usize);
+					}
+				}
+				must.sort();
+				must.dedup();
+				for k in must {
+					let (name, mb, root_ok, body_ok) = &cands[k];
+					let rec = hrec(&mut nb.reg, &mb.header, *root_ok, *body_ok);
+					let o = rng.pick(&[SYNC, SYNC, SYNC, NONE, MINE]);
+					nb.deliver_block(mb, &rec, name, o);
+				}
+				let b = &honest[hgt];
+				let rec = hrec(&mut nb.reg, &b.header, true, true);
+				let o = if rng.below(6) == 0 { NONE } else { SYNC };
+				nb.deliver_block(b, &rec, "honest", o);
+				body_synced += 1;
+			}
+			lo += n;
+		}
+		// every honest block was delivered: the node must be on the honest chain now (the blocks
+		// parked in the orphan pool are processed without a call of their own)
+		// (a benign variant of the last block that arrived first stays the head: equal work)
+		let head = nb.chain.head().unwrap();
+		body_head_ok = head.height == top as u64
+			&& head.total_difficulty == honest[top].header.total_difficulty()
+			&& honest.iter().all(|b| nb.chain.get_block(&b.hash()).is_ok());
 		node = nb;
 	}
 
 	let events = node.out.n;
 	let by: serde_json::Map<String, Value> = node.by_mut.iter().map(|(k, v)| (k.clone(), json!([v.0, v.1]))).collect();
+	let byo: serde_json::Map<String, Value> = node.by_opts.iter().map(|(k, v)| (k.clone(), json!([v.0, v.1, v.2]))).collect();
+	let fbp: serde_json::Map<String, Value> = node.forged_by_path.iter().map(|(k, v)| (k.clone(), json!(v))).collect();
 	node.out.finish();
 	let dn = dout.n;
 	dout.finish();
@@ -605,6 +830,8 @@ fn chain_scenario(a: &Args) {
 		"{}",
 		json!({"events": events, "diff_events": dn, "height": honest.len() - 1, "delivered": node.delivered, "accepted": node.accepted,
 			"max_target": max_target, "pow_exact_found": exact_found, "pow_low_found": low_found, "sync_chunks": sync_chunks,
+			"forged_found": forged_found, "body_synced": body_synced, "body_head_ok": body_head_ok,
+			"by_options_accept_reject_orphan": byo, "forged_by_path": fbp,
 			"by_mutation": by})
 	);
 }
